@@ -43,6 +43,8 @@ def tasks(tier):
             for first in SIGMA:
                 ts.append(("roc", thr_i, carrier, first, n))
     ts.append(("roc_small",))
+    ts.append(("roc_odd",))
+    ts.append(("speed_sum",))
     ts.append(("roc_long",))
     ts.append(("roc_len",))
     m = TRACKN[tier]
@@ -150,6 +152,33 @@ def run_task(task, acc):
                 if alpha.NAN in x:
                     for thr in THR[:4]:
                         yield dict(fn="roc", x=list(x), gaps=[60] * (len(x) - 1), carrier="dt64", thr=thr, data="ma")
+        run_cases(acc, gen(), check_case)
+    elif kind == "roc_odd":
+        # steps for which (d / dt) * dt does not round back to d: a rate exactly on the threshold is not "greater"
+        def gen():
+            steps = (49, 93, 107, 7, 3)
+            thrs = sorted({d / dt for d in (1.0, 2.0, 3.0) for dt in steps})
+            for x in alpha.all_seqs((0.0, 1.0, 3.0), 2, 3):
+                for gaps in itertools.product(steps, repeat=len(x) - 1):
+                    for thr in thrs:
+                        for carrier in ("dt64", "epoch"):
+                            yield dict(fn="roc", x=list(x), gaps=list(gaps), carrier=carrier, thr=thr)
+            for step in steps:   # regularly sampled long series with that step
+                x = alpha.xl((0.0, 1.0, 3.0, alpha.NAN), 400, 3)
+                for d in (1.0, 2.0, 3.0):
+                    yield dict(fn="roc", x=list(x), gaps=[step] * (len(x) - 1), carrier="dt64", thr=d / step)
+        run_cases(acc, gen(), check_case)
+    elif kind == "speed_sum":
+        # irregular axes whose total span equals (n-1) times their first step (an "evenly sampled" look-alike)
+        def gen():
+            pats = ((100, 10, 190), (100, 10, 190, 100), (60, 30, 120, 30), (3600, 7200, 10, 3590), (86400, 10, 3 * 86400 - 20, 10))
+            for gaps in pats:
+                for tr in itertools.product(POS[:4], repeat=len(gaps) + 1):
+                    track = [list(p) for p in tr]
+                    th = thresholds_for(track, gaps)
+                    for s_ in th[::2]:
+                        yield dict(fn="speed", track=track, gaps=list(gaps), carrier="dt64", suspect=s_, fail=th[-1])
+                    yield dict(fn="speed", track=track, gaps=list(gaps), carrier="epoch", suspect=th[len(th) // 2], fail=th[-2] if len(th) > 1 else th[-1])
         run_cases(acc, gen(), check_case)
     elif kind == "roc_long":
         def gen():
